@@ -229,13 +229,17 @@ class Lemma:
         self.name = name; self.vars = vars_; self.lhs = lhs; self.rhs = rhs; self.tactic = tactic; self.meta = meta or {}; self.ops = 'O'; self.ty = 'res (valO O)'
     def statement(self):
         fa = ('forall %s, ' % binders(self.vars, self.ops)) if self.vars else ''
+        if getattr(self, 'mode', None) == 'ieee': return '%s%s = %s' % (fa, self.lhs, self.rhs)
+        if getattr(self, 'raw_stmt', False): return 'forall (O:Ops) (chk:bool), IntStd O chk -> LitStd O -> %s%s' % (fa, self.lhs)
         if getattr(self, 'intstd', False): return 'forall (O:Ops) (chk:bool), IntStd O chk -> LitStd O -> %s%s = %s' % (fa, self.lhs, self.rhs)
         return 'forall (O:Ops)%s, %s = %s' % ((' ' + binders(self.vars, self.ops)) if self.vars else '', self.lhs, self.rhs)
     def text(self):
+        if getattr(self, 'mode', None) == 'ieee':
+            return 'Lemma %s : %s.\nProof. intros. Timeout %d (destruct_bools; vm_compute; reflexivity). Qed.' % (self.name, self.statement(), LEMMA_TIMEOUT[0])
         if getattr(self, 'intstd', False) == 'concrete':
-            return 'Lemma %s : %s.\nProof. intros O; destruct O; intros chk HZ HL; intros; intstd_eqs HZ; litstd_eqs HL. Timeout %d solve_zc ltac:(unlock_ints) ltac:(use_lits). all: reflexivity. Qed.' % (self.name, self.statement(), LEMMA_TIMEOUT[0])
+            return 'Lemma %s : %s.\nProof. intros O; destruct O; intros chk HZ HL; intros; intstd_eqs HZ; litstd_eqs HL. Timeout %d solve_zc ltac:(unlock_ints) ltac:(use_lits). all: first [reflexivity | exact I]. Qed.' % (self.name, self.statement(), LEMMA_TIMEOUT[0])
         if getattr(self, 'intstd', False):
-            return 'Lemma %s : %s.\nProof. intros O; destruct O; intros chk HZ HL; intros; intstd_eqs HZ; litstd_eqs HL. Timeout %d solve_z f32_pred f32_cmp f64_pred f64_cmp chk ltac:(unlock_ints) ltac:(use_lits). all: reflexivity. Qed.' % (self.name, self.statement(), LEMMA_TIMEOUT[0])
+            return 'Lemma %s : %s.\nProof. intros O; destruct O; intros chk HZ HL; intros; intstd_eqs HZ; litstd_eqs HL. Timeout %d solve_z f32_pred f32_cmp f64_pred f64_cmp chk ltac:(unlock_ints) ltac:(use_lits). all: first [reflexivity | exact I]. Qed.' % (self.name, self.statement(), LEMMA_TIMEOUT[0])
         return 'Lemma %s : %s.\nProof. intros O; destruct O; intros. Timeout %d %s. all: reflexivity. Qed.' % (self.name, self.statement(), LEMMA_TIMEOUT[0], self.tactic)
 
 HDR = 'From Glam Require Import Base Spec.\nFrom Gen Require Import Table.\nFrom Coq Require Import ZArith List String Bool.\nImport ListNotations.\nOpen Scope Z_scope.\n'
@@ -402,7 +406,7 @@ def eval_model(terms, tag, imports='', chunk=150):
         with open(path, 'w') as f:
             f.write('From Glam Require Import Base Sem Spec.\nFrom Gen Require Import Table.\nFrom Coq Require Import ZArith List.\nImport ListNotations.\nOpen Scope Z_scope.\n' + imports)
             f.write('Definition rs : list (list Z) := [' + ';\n '.join(part) + '].\nEval vm_compute in rs.\n')
-        rc, so, se = coqc(path, timeout=1200, limit=False)
+        rc, so, se = coqc(path, timeout=300, limit=False)
         if rc != 0 or '= [' not in so: return ci, None, (se + so)[-1500:]
         body = so[so.index('= [') + 2:so.rindex(': list')]
         rws = re.findall(r'\[([^\[\]]*)\]', body)
@@ -583,10 +587,13 @@ def canon_driver(structs, enums, t, line):
     try: return canon(structs, enums, t, iter(int(x, 16) for x in line.split()[1:]), 'driver')
     except StopIteration: return 'SHORT'
 
-def correspondence(idx, targets, seed, per_fn, tag, fuel=400):
+def correspondence(idx, targets, seed, per_fn, tag, fuel=400, max_calls=None):
     """targets: list of (cfg, fn entry). Runs every target `per_fn` times on the real crate (driver built from /repo)
     and on the model (vm_compute) with the same inputs; returns statistics and the list of disagreements."""
     g = Gen(seed); t0 = time.time(); by_cfg = {}
+    if max_calls is not None and len(targets) * per_fn > max_calls:
+        # deterministic sample of the targets (seeded), so that the quick tier stays within its time budget
+        rr = random.Random(seed); targets = list(targets); rr.shuffle(targets); targets = targets[:max(1, max_calls // per_fn)]
     for cfg, f in targets: by_cfg.setdefault(cfg, []).append(f)
     cases = []; skipped = {}
     for cfg, fs in by_cfg.items():
@@ -610,7 +617,7 @@ def correspondence(idx, targets, seed, per_fn, tag, fuel=400):
         if len(lines) != len(cs): raise RuntimeError('driver %s returned %d lines for %d calls' % (cfg, len(lines), len(cs)))
         for (i, _), l in zip(cs, lines): drv_out[i] = l
     model, errs = eval_model(['out (run IEEEr tbl %d %d%%positive %s)' % (fuel, c[1]['fid'], c[3]) for c in cases], tag)
-    agree = 0; bad = []; distinct = set(); panics = 0
+    agree = 0; bad = []; distinct = set(); panics = 0; noeval = 0
     for i, c in enumerate(cases):
         cfg, f, words, term = c; structs = idx.structs(cfg); enums = idx.enums(cfg)
         ret = f['self'] if (f['self_mut'] and f['ret'] == 'unit') else f['ret']
@@ -621,6 +628,7 @@ def correspondence(idx, targets, seed, per_fn, tag, fuel=400):
         except SymErr as e:
             skipped['ret:' + str(e)[:30]] = skipped.get('ret:' + str(e)[:30], 0) + 1; continue
         if dv == 'PANIC': panics += 1
+        if mv == 'NOEVAL': noeval += 1; continue
         if dv == mv: agree += 1; distinct.add((f['fid'], tuple(words)))
         else: bad.append({'cfg': cfg, 'function': f['key'], 'file': f['file'], 'did': f['did'], 'fid': f['fid'], 'input_words': ['%x' % w for w in words], 'model_term': term, 'impl_result': dv if isinstance(dv, str) else ['%s' % x for x in dv], 'model_result': mv if isinstance(mv, str) else ['%s' % x for x in mv]})
-    return {'calls': len(cases), 'agree': agree, 'disagree': len(bad), 'distinct_inputs': len(distinct), 'functions': len(set((c[0], c[1]['key']) for c in cases)), 'panics_both': panics, 'skipped': skipped, 'model_eval_errors': errs[:3], 'input_classes': g.classes, 'configs': sorted(by_cfg), 's': round(time.time() - t0, 1), 'samples': [{'cfg': c[0], 'fn': c[1]['key'], 'in': ['%x' % w for w in c[2]], 'out': drv_out.get(i)} for i, c in list(enumerate(cases))[:3]]}, bad
+    return {'calls': len(cases), 'agree': agree, 'disagree': len(bad), 'distinct_inputs': len(distinct), 'functions': len(set((c[0], c[1]['key']) for c in cases)), 'panics_both': panics, 'model_not_evaluated': noeval, 'skipped': skipped, 'model_eval_errors': errs[:3], 'input_classes': g.classes, 'configs': sorted(by_cfg), 's': round(time.time() - t0, 1), 'samples': [{'cfg': c[0], 'fn': c[1]['key'], 'in': ['%x' % w for w in c[2]], 'out': drv_out.get(i)} for i, c in list(enumerate(cases))[:3]]}, bad
